@@ -11,6 +11,64 @@ mod tokens;
 
 use framework::{Tier, run_check, run_replay};
 
+/// Counting allocator: live heap bytes allocated minus freed *by the calling thread*. The
+/// simulator drives one rewriter per thread at a time, so the difference between two readings
+/// on the same thread is what the code in between retained (C10: steady-state heap).
+pub mod heap {
+    use std::alloc::{GlobalAlloc, Layout, System};
+    use std::cell::Cell;
+
+    thread_local! {
+        static LIVE: Cell<isize> = const { Cell::new(0) };
+    }
+
+    pub struct Counting;
+
+    #[inline]
+    fn add(n: isize) {
+        let _ = LIVE.try_with(|l| l.set(l.get() + n));
+    }
+
+    // SAFETY: defers to the system allocator; the bookkeeping touches a const-initialised
+    // thread-local Cell only (no allocation, no destructor).
+    unsafe impl GlobalAlloc for Counting {
+        unsafe fn alloc(&self, l: Layout) -> *mut u8 {
+            let p = unsafe { System.alloc(l) };
+            if !p.is_null() {
+                add(l.size() as isize);
+            }
+            p
+        }
+        unsafe fn dealloc(&self, p: *mut u8, l: Layout) {
+            unsafe { System.dealloc(p, l) };
+            add(-(l.size() as isize));
+        }
+        unsafe fn alloc_zeroed(&self, l: Layout) -> *mut u8 {
+            let p = unsafe { System.alloc_zeroed(l) };
+            if !p.is_null() {
+                add(l.size() as isize);
+            }
+            p
+        }
+        unsafe fn realloc(&self, p: *mut u8, l: Layout, new_size: usize) -> *mut u8 {
+            let q = unsafe { System.realloc(p, l, new_size) };
+            if !q.is_null() {
+                add(new_size as isize - l.size() as isize);
+            }
+            q
+        }
+    }
+
+    /// Net bytes allocated by this thread so far.
+    pub fn live() -> isize {
+        LIVE.try_with(Cell::get).unwrap_or(0)
+    }
+}
+
+#[cfg(not(miri))]
+#[global_allocator]
+static ALLOC: heap::Counting = heap::Counting;
+
 fn usage() -> ! {
     eprintln!("usage: lolsim check <ID> quick|thorough | lolsim replay <ID> <file> | lolsim run-scenario <file>");
     std::process::exit(2)
